@@ -195,13 +195,28 @@ def gen_ops(g, d, kinds, n, big):
     return ops, total
 
 
+def sync_stream_size(d, path):
+    """Bytes the device's sync service sends for a pull of `path`: the content plus one 8-byte header per DATA record."""
+    f = d['fs'].get(path)
+    if f is None:
+        return 64
+    size = f['content']['size']
+    sizes = [max(1, min(r, 65536)) for r in (f.get('records') or [65536])]
+    n = i = k = 0
+    while i < size and n < 100000:
+        i += sizes[k % len(sizes)]
+        k += 1
+        n += 1
+    return size + 8 * n + 8
+
+
 def session(seed, kinds, nmax=5, big=20000, api=None):
     """A single-actor, fault-free session scenario."""
     g = Gen(seed)
     d = gen_device(g, big)
     ops, total = gen_ops(g, d, kinds, g.int(1, nmax), big)
     cfg = gen_config(g, total)
-    sync_bytes = sum(d['fs'][op['path']]['content']['size'] for op in ops if op['op'] == 'pull' and op['path'] in d['fs'])
+    sync_bytes = sum(sync_stream_size(d, op['path']) for op in ops if op['op'] == 'pull' and op['path'] in d['fs'])
     sync_bytes += sum(sum(20 + len(e[0]) // 2 for e in d['dirs'].get(op['path'], [])) for op in ops if op['op'] == 'list')
     for plan in d['cut_plans']:
         if plan['policy'] == 'one' and sync_bytes > 3000:
